@@ -72,71 +72,39 @@ pub fn main(args: &[String]) -> Result<(), String> {
     let count: usize = get(&m, "count", 100);
     let out = m.get("out").cloned().ok_or("out=<file> required")?;
     let level = m.get("cfgs").cloned().unwrap_or("basic".into());
-    let mut f = std::io::BufWriter::new(std::fs::File::create(&out).map_err(|e| e.to_string())?);
-    let mut n = 0;
-    for i in 0..count {
-        let sseed = seed.wrapping_mul(1_000_003).wrapping_add(i as u64);
-        if kind == "fail" {
-            // two histories per case: A (with the failing forms) and its effects-only twin B
-            let kmax: usize = get(&m, "kmax", 8);
-            for j in fail_records(2 * i + 1, sseed, kmax)? {
-                writeln!(f, "{}", j).map_err(|e| e.to_string())?;
-                n += 1;
-            }
-            continue;
-        }
-        let (forms, tags, extra): (Vec<String>, Vec<String>, Vec<(&str, Value)>) = match kind {
-            "lang" => {
-                let mut g = LangGen::new(sseed);
-                let nforms = 3 + g.rng.below(6);
-                let fail: u32 = get(&m, "fail", 15);
-                let forms = g.session(nforms, fail);
-                (forms, g.tags.clone(), vec![])
-            }
-            "scope" => {
-                // enumeration (from + i) or random sampling of scope skeletons with l levels
-                let l: usize = get(&m, "l", 2);
-                let mode = m.get("mode").cloned().unwrap_or("enum".into());
-                let sk = if mode == "enum" {
-                    let from: usize = get(&m, "from", 0);
-                    let stride: usize = get(&m, "stride", 1);
-                    let idx = from + i * stride;
-                    if idx >= crate::gen_scope::space(l) {
+    let threads: usize = std::env::var("VERIF_THREADS").ok().and_then(|v| v.parse().ok()).unwrap_or(12).max(1);
+    let results: std::sync::Mutex<Vec<(usize, Vec<String>)>> = std::sync::Mutex::new(vec![]);
+    let error: std::sync::Mutex<Option<String>> = std::sync::Mutex::new(None);
+    let next = std::sync::atomic::AtomicUsize::new(0);
+    std::thread::scope(|sc| {
+        for _ in 0..threads {
+            sc.spawn(|| loop {
+                let i = next.fetch_add(1, std::sync::atomic::Ordering::SeqCst);
+                if i >= count || error.lock().unwrap().is_some() {
+                    break;
+                }
+                match one_session(kind, &m, seed, i, &level) {
+                    Ok(lines) => results.lock().unwrap().push((i, lines)),
+                    Err(e) => {
+                        *error.lock().unwrap() = Some(e);
                         break;
                     }
-                    crate::gen_scope::nth(l, idx)
-                } else {
-                    crate::gen_scope::random(l, &mut crate::rng::Rng::new(sseed))
-                };
-                (sk.forms(), vec![format!("scope:{}", sk.describe())], vec![])
-            }
-            "cont" => {
-                let (forms, tags) = crate::gen_cont::session(&mut crate::rng::Rng::new(sseed));
-                (forms, tags, vec![])
-            }
-            "alloc" => {
-                let (forms, tags) = crate::gen_alloc::session(&mut crate::rng::Rng::new(sseed));
-                (forms, tags, vec![])
-            }
-            "scopeloop" => (crate::gen_scope::loop_sessions(&mut crate::rng::Rng::new(sseed)), vec!["scope-loop".into()], vec![]),
-            other => return Err(format!("unknown kind {}", other)),
-        };
-        let mut cells = vec![];
-        for t in &forms {
-            let c = parse_all(t).map_err(|e| format!("generator produced unreadable text: {}", e))?;
-            if c.len() != 1 {
-                return Err(format!("generator text is not one datum: {}", t));
-            }
-            cells.push(c.into_iter().next().unwrap());
+                }
+            });
         }
-        let cfgs = cfgs_for(&level, sseed);
-        let mut extra = extra;
-        extra.push(("tags", json!(tags)));
-        extra.push(("kind", json!(kind)));
-        extra.push(("seed", json!(sseed)));
-        let j = session_json_x(i + 1, &cells, None, &cfgs, &extra);
-        writeln!(f, "{}", j).map_err(|e| e.to_string())?;
-        n += 1;
+    });
+    if let Some(e) = error.into_inner().unwrap() {
+        return Err(e);
+    }
+    let mut results = results.into_inner().unwrap();
+    results.sort_by_key(|r| r.0);
+    let mut f = std::io::BufWriter::new(std::fs::File::create(&out).map_err(|e| e.to_string())?);
+    let mut n = 0;
+    for (_, lines) in results {
+        for l in lines {
+            writeln!(f, "{}", l).map_err(|e| e.to_string())?;
+            n += 1;
+        }
     }
     eprintln!("gen {}: {} sessions", kind, n);
     Ok(())
@@ -190,4 +158,70 @@ fn fail_records(id: usize, sseed: u64, kmax: usize) -> Result<Vec<Value>, String
     let extra_b = vec![("tags", json!(tags)), ("kind", json!("fail-twin")), ("seed", json!(sseed))];
     let jb = session_json_runs(id + 1, &cb, None, vec![("plain".into(), ob)], &extra_b);
     Ok(vec![ja, jb])
+}
+
+/// The record(s) of the i-th session of a kind (independent of the other sessions).
+fn one_session(kind: &str, m: &HashMap<String, String>, seed: u64, i: usize, level: &str) -> Result<Vec<String>, String> {
+
+        let sseed = seed.wrapping_mul(1_000_003).wrapping_add(i as u64);
+        if kind == "fail" {
+            // two histories per case: A (with the failing forms) and its effects-only twin B
+            let kmax: usize = get(m, "kmax", 8);
+            return Ok(fail_records(2 * i + 1, sseed, kmax)?.iter().map(|j| j.to_string()).collect());
+        }
+        let (forms, tags, extra): (Vec<String>, Vec<String>, Vec<(&str, Value)>) = match kind {
+            "lang" => {
+                let mut g = LangGen::new(sseed);
+                let nforms = 3 + g.rng.below(6);
+                let fail: u32 = get(m, "fail", 15);
+                let forms = g.session(nforms, fail);
+                (forms, g.tags.clone(), vec![])
+            }
+            "scope" => {
+                // enumeration (from + i) or random sampling of scope skeletons with l levels
+                let l: usize = get(m, "l", 2);
+                let mode = m.get("mode").cloned().unwrap_or("enum".into());
+                let sk = if mode == "enum" {
+                    let from: usize = get(m, "from", 0);
+                    let stride: usize = get(m, "stride", 1);
+                    let idx = from + i * stride;
+                    if idx >= crate::gen_scope::space(l) {
+                        return Ok(vec![]);
+                    }
+                    crate::gen_scope::nth(l, idx)
+                } else {
+                    crate::gen_scope::random(l, &mut crate::rng::Rng::new(sseed))
+                };
+                (sk.forms(), vec![format!("scope:{}", sk.describe())], vec![])
+            }
+            "cont" => {
+                let (forms, tags) = crate::gen_cont::session(&mut crate::rng::Rng::new(sseed));
+                (forms, tags, vec![])
+            }
+            "alloc" => {
+                let (forms, tags) = crate::gen_alloc::session(&mut crate::rng::Rng::new(sseed));
+                (forms, tags, vec![])
+            }
+            "sym" => {
+                let (forms, tags) = crate::gen_sym::session(&mut crate::rng::Rng::new(sseed));
+                (forms, tags, vec![])
+            }
+            "scopeloop" => (crate::gen_scope::loop_sessions(&mut crate::rng::Rng::new(sseed)), vec!["scope-loop".into()], vec![]),
+            other => return Err(format!("unknown kind {}", other)),
+        };
+        let mut cells = vec![];
+        for t in &forms {
+            let c = parse_all(t).map_err(|e| format!("generator produced unreadable text: {}", e))?;
+            if c.len() != 1 {
+                return Err(format!("generator text is not one datum: {}", t));
+            }
+            cells.push(c.into_iter().next().unwrap());
+        }
+        let cfgs = cfgs_for(&level, sseed);
+        let mut extra = extra;
+        extra.push(("tags", json!(tags)));
+        extra.push(("kind", json!(kind)));
+        extra.push(("seed", json!(sseed)));
+        let j = session_json_x(i + 1, &cells, None, &cfgs, &extra);
+        return Ok(vec![j.to_string()]);
 }
